@@ -306,21 +306,44 @@ def attach():
 def independence(G, names, rows):
     """Mutate results; the receiver must not follow (and vice versa)."""
     before = _snap(G)[0]
-    c = G.clone()
-    G.get_reversed_graph()
-    G.get_subgraph(list(names))
-    # only clone() promises independence of the result
-    for H in (c,):
-        for v in list(H._next):
-            H._next[v].add('__vmon_probe__')
-        H._next['__vmon_new__'] = set()
-    G.get_reachable_set_from(names[:1])
+    results = [('clone', G.clone()),
+               ('get_reversed_graph', G.get_reversed_graph()),
+               ('get_subgraph', G.get_subgraph(list(names)))]
+    rs = G.get_reachable_set_from(names[:1])
     LOG.hit('c13.independence')
+    # use the results the way a caller would -- through the public API -- and
+    # watch the original: "none of these change G" must survive ordinary use
+    # of what they returned
+    for what, H in results:
+        try:
+            H.add_node('__vmon_new__')
+            for v in list(H.nodes()):
+                if v != '__vmon_new__':
+                    try:
+                        H.add_edge(v, '__vmon_new__')
+                    except RuntimeError:
+                        pass
+        except Exception:
+            continue
+        if _snap(G)[0] != before:
+            LOG.violation('c13.' + what, PROP,
+                          _case(names, rows, {'operation': what}),
+                          'the graph changed when the result of %s was '
+                          'extended through add_node/add_edge' % what,
+                          'a result independent of the graph',
+                          note='result of %s shares structure with the '
+                               'graph' % what)
+            before = _snap(G)[0]
+    try:
+        rs.add('__vmon_probe__')
+    except Exception:
+        pass
     if _snap(G)[0] != before:
-        LOG.violation('c13.clone', PROP, _case(names, rows),
-                      'receiver changed after mutating results',
-                      'results independent of the receiver',
-                      note='aliasing between result and receiver')
+        LOG.violation('c13.get_reachable_set_from', PROP,
+                      _case(names, rows),
+                      'the graph changed when the returned set was extended',
+                      'a set independent of the graph',
+                      note='reachable set shares structure with the graph')
     # double reversal
     rr = G.get_reversed_graph().get_reversed_graph()
     LOG.hit('c13.double_reversal')
